@@ -495,7 +495,8 @@ Lemma insertish_sound present s a t pre post r exp sm' cl s' :
   ((norm_out r = norm_out exp /\ s' = inval (put_m s a t sm')) \/
    (present = false /\
     ((s' = inval s /\ norm_out r = [RExn EMaxHashpower] /\ maxhp_allowed pre post None = true) \/
-     (s' = inval s /\ norm_out r = [RExn ELoadFactorTooLow] /\ lf_allowed pre = true)))).
+     (s' = inval s /\ norm_out r = [RExn ELoadFactorTooLow] /\ lf_allowed pre = true /\
+      lf_below spb_ pre post = true)))).
 Proof.
   unfold judge_insertish, ok, blame. intro Hj.
   destruct (grew_below_minimum spb_ pre post).
@@ -509,18 +510,21 @@ Proof.
     right. split; [reflexivity|]. left. split; [reflexivity|]. split; [apply is_exn_iff; exact E1|reflexivity]. }
   destruct (is_exn r ELoadFactorTooLow) eqn:E2; [|discriminate Hj].
   destruct present; cbn [negb andb] in Hj; [discriminate Hj|].
-  destruct (lf_allowed pre) eqn:E3; [|discriminate Hj]. injection Hj as <-.
-  right. split; [reflexivity|]. right. split; [reflexivity|]. split; [apply is_exn_iff; exact E2|reflexivity].
+  destruct (lf_allowed pre) eqn:E3; [|discriminate Hj]. cbn [andb] in Hj.
+  destruct (lf_below spb_ pre post) eqn:E4; [|discriminate Hj]. injection Hj as <-.
+  right. split; [reflexivity|]. right. split; [reflexivity|]. split; [apply is_exn_iff; exact E2|].
+  split; reflexivity.
 Qed.
 
 (* an accepted policy exception satisfies the side condition of the spec *)
 Lemma accepted_exn_ok tb m s a t pre post r s' :
   obs_pre tb pre -> get_st s a = Some t -> st_moved t = false -> srep (st_m t) m ->
   (s' = inval s /\ norm_out r = [RExn EMaxHashpower] /\ maxhp_allowed pre post None = true) \/
-  (s' = inval s /\ norm_out r = [RExn ELoadFactorTooLow] /\ lf_allowed pre = true) ->
+  (s' = inval s /\ norm_out r = [RExn ELoadFactorTooLow] /\ lf_allowed pre = true /\
+   lf_below spb_ pre post = true) ->
   post_ok s' a t m /\ ins_exn tb m (norm_out r) m.
 Proof.
-  intros [_ [Hm Hl]] Hg Hmv R [[-> [Hr Ha]]|[-> [Hr Ha]]].
+  intros [_ [Hm Hl]] Hg Hmv R [[-> [Hr Ha]]|[-> [Hr [Ha _]]]].
   - split; [apply post_ok_inval, post_ok_same; assumption|]. exists EMaxHashpower.
     split; [exact Hr|]. split; [intro; reflexivity|]. left. split; [reflexivity|].
     rewrite <- Hm. apply (maxhp_allowed_pre _ _ _ Ha).
@@ -741,6 +745,42 @@ Proof.
   - exact (sound_OClear tb _ _ _ _ _ _ _ _ Hg Hmv R Hun Hj).
 Qed.
 
+(* what an accepted judgement of an insert-family call says about the observations, beyond
+   [op_spec]: no doubling below the minimum load factor is visible; a maximum-hashpower exception
+   left the table at the configured maximum; a load-factor exception was thrown with a well-formed
+   non-zero minimum and the load factor (elements before the call over the capacity at the final
+   hashpower) STRICTLY below it *)
+Definition ins_family (o : op) : bool :=
+  match o with OInsert _ _ | OIoa _ _ | OUpsert _ _ _ _ | OUprase _ _ _ _ => true | _ => false end.
+
+Lemma insertish_obs present s a t pre post r b tl sm' cl s' :
+  judge_insertish spb_ present s a t pre post r (RBool b :: tl) sm' cl = (s', []) ->
+  grew_below_minimum spb_ pre post = false /\
+  (norm_out r = [RExn EMaxHashpower] -> maxhp_allowed pre post None = true) /\
+  (norm_out r = [RExn ELoadFactorTooLow] -> lf_allowed pre = true /\ lf_below spb_ pre post = true).
+Proof.
+  intro Hj. destruct (insertish_sound _ _ _ _ _ _ _ _ _ _ _ Hj) as [Hgr H]. split; [exact Hgr|].
+  destruct H as [[Hr _]|[_ [[_ [Hr Ha]]|[_ [Hr Ha]]]]].
+  - split; intro X; rewrite X in Hr; discriminate Hr.
+  - split; intro X; [exact Ha|rewrite X in Hr; discriminate Hr].
+  - split; intro X; [rewrite X in Hr; discriminate Hr|exact Ha].
+Qed.
+
+Theorem judge_sound_lf s a t o r pre post s' :
+  ins_family o = true ->
+  get_st s a = Some t -> st_moved t = false -> is_exn r EUnmodelled = false ->
+  judge s a o r pre post = (s', []) ->
+  grew_below_minimum spb_ pre post = false /\
+  (norm_out r = [RExn EMaxHashpower] -> maxhp_allowed pre post None = true) /\
+  (norm_out r = [RExn ELoadFactorTooLow] -> lf_allowed pre = true /\ lf_below spb_ pre post = true).
+Proof.
+  intros Hop Hg Hmv Hun Hj. destruct o; try discriminate Hop; jred Hj Hg Hun Hmv;
+    destruct (sfind k (st_m t)) as [v0|];
+    try destruct two;
+    repeat match type of Hj with context [let '(_, _) := ?p in _] => destruct p end;
+    exact (insertish_obs _ _ _ _ _ _ _ _ _ _ _ _ Hj).
+Qed.
+
 End Sound.
 
 (* ================================================================== 4. completeness (no false alarm) *)
@@ -771,7 +811,8 @@ Definition obs_consistent (tb : table) (o : op) (r : out) (pre post : obs) : Pro
   match o with
   | OInsert _ _ | OIoa _ _ | OUpsert _ _ _ _ | OUprase _ _ _ _ =>
       obs_pre tb pre /\ o_mlfd pre <> 0 /\ grew_below_minimum spb_ pre post = false /\
-      (norm_out r = [RExn EMaxHashpower] -> o_hp post = o_mhp pre) /\ no_fuel r
+      (norm_out r = [RExn EMaxHashpower] -> o_hp post = o_mhp pre) /\
+      (norm_out r = [RExn ELoadFactorTooLow] -> lf_below spb_ pre post = true) /\ no_fuel r
   | ORehash n =>
       obs_pre tb pre /\ (forall b, norm_out r = [RBool b] -> n <= o_hp post) /\ no_fuel r
   | OReserve n =>
@@ -913,11 +954,12 @@ Qed.
 
 Lemma insertish_complete_exn tb s a t pre post r b tl sm' cl e :
   obs_pre tb pre -> o_mlfd pre <> 0 -> grew_below_minimum spb_ pre post = false ->
-  (norm_out r = [RExn EMaxHashpower] -> o_hp post = o_mhp pre) -> no_fuel r ->
+  (norm_out r = [RExn EMaxHashpower] -> o_hp post = o_mhp pre) ->
+  (norm_out r = [RExn ELoadFactorTooLow] -> lf_below spb_ pre post = true) -> no_fuel r ->
   norm_out r = [RExn e] -> exn_ok0 true tb e ->
   judge_insertish spb_ false s a t pre post r (RBool b :: tl) sm' cl = (inval s, []).
 Proof.
-  intros [_ [Hm Hl]] Hd Hgr Hmax Hnf Hr He. unfold judge_insertish. rewrite Hgr.
+  intros [_ [Hm Hl]] Hd Hgr Hmax Hlfb Hnf Hr He. unfold judge_insertish. rewrite Hgr.
   assert (E0 : out_eqb r (RBool b :: tl) = false).
   { destruct (out_eqb r (RBool b :: tl)) eqn:E; [|reflexivity]. apply out_eqb_norm in E.
     rewrite Hr in E. discriminate E. }
@@ -928,13 +970,14 @@ Proof.
     rewrite E1, (proj2 (is_exn_iff r _) Hr).
     assert (E2 : lf_allowed pre = true).
     { apply lf_allowed_pre. split; [|exact Hd]. intro H. apply Hne. apply Hl. exact H. }
-    rewrite E2. reflexivity.
+    rewrite E2, (Hlfb Hr). reflexivity.
   - exfalso. exact (Hnf Hr).
 Qed.
 
 Lemma complete_insertish_gen tb g k v (full : bool) m present s a t pre post r exp sm' cl mm m' :
   obs_pre tb pre -> o_mlfd pre <> 0 -> grew_below_minimum spb_ pre post = false ->
-  (norm_out r = [RExn EMaxHashpower] -> o_hp post = o_mhp pre) -> no_fuel r ->
+  (norm_out r = [RExn EMaxHashpower] -> o_hp post = o_mhp pre) ->
+  (norm_out r = [RExn ELoadFactorTooLow] -> lf_below spb_ pre post = true) -> no_fuel r ->
   get_st s a = Some t -> st_moved t = false -> srep (st_m t) m ->
   srep sm' mm -> present = is_some (m k) ->
   match m k with
@@ -946,7 +989,7 @@ Lemma complete_insertish_gen tb g k v (full : bool) m present s a t pre post r e
   ins_spec tb g k v full m (norm_out r) m' ->
   exists s', judge_insertish spb_ present s a t pre post r exp sm' cl = (s', []) /\ post_ok s' a t m'.
 Proof.
-  intros Hpre Hd Hgr Hmax Hnf Hg Hmv R R' Hp Hcase H. unfold ins_spec in H. subst present.
+  intros Hpre Hd Hgr Hmax Hlfb Hnf Hg Hmv R R' Hp Hcase H. unfold ins_spec in H. subst present.
   destruct (m k) as [v0|].
   - destruct Hcase as [Hmm ->]. destruct H as [Hm' Hr].
     eexists. split; [apply insertish_complete_exp; assumption|].
@@ -966,13 +1009,13 @@ Lemma complete_OInsert tb s a t m k v r m' :
   op_spec tb m (OInsert k v) (norm_out r) m' ->
   exists s', judge s a (OInsert k v) r pre post = (s', []) /\ post_ok s' a t m'.
 Proof.
-  intros pre post Hg Hmv R Hun [Hpre [Hd [Hgr [Hmax Hnf]]]] H. jredg Hg Hun Hmv. assert (Hf := proj2 R k).
+  intros pre post Hg Hmv R Hun [Hpre [Hd [Hgr [Hmax [Hlfb Hnf]]]]] H. jredg Hg Hun Hmv. assert (Hf := proj2 R k).
   cbn [LazyRefine.op_spec] in H.
   destruct (sfind k (st_m t)) as [v0|] eqn:Ef.
-  - eapply (complete_insertish_gen tb _ k v false m _ _ _ _ _ _ _ _ _ _ m m' Hpre Hd Hgr Hmax Hnf Hg Hmv R);
+  - eapply (complete_insertish_gen tb _ k v false m _ _ _ _ _ _ _ _ _ _ m m' Hpre Hd Hgr Hmax Hlfb Hnf Hg Hmv R);
       [exact R|rewrite <- Hf; reflexivity| |exact H].
     rewrite <- Hf. split; [|reflexivity]. apply meq_mset_self. symmetry. exact Hf.
-  - eapply (complete_insertish_gen tb _ k v false m _ _ _ _ _ _ _ _ _ _ _ m' Hpre Hd Hgr Hmax Hnf Hg Hmv R);
+  - eapply (complete_insertish_gen tb _ k v false m _ _ _ _ _ _ _ _ _ _ _ m' Hpre Hd Hgr Hmax Hlfb Hnf Hg Hmv R);
       [apply srep_sset; exact R|rewrite <- Hf; reflexivity| |exact H].
     rewrite <- Hf. split; [intro; reflexivity|reflexivity].
 Qed.
@@ -983,13 +1026,13 @@ Lemma complete_OIoa tb s a t m k v r m' :
   op_spec tb m (OIoa k v) (norm_out r) m' ->
   exists s', judge s a (OIoa k v) r pre post = (s', []) /\ post_ok s' a t m'.
 Proof.
-  intros pre post Hg Hmv R Hun [Hpre [Hd [Hgr [Hmax Hnf]]]] H. jredg Hg Hun Hmv. assert (Hf := proj2 R k).
+  intros pre post Hg Hmv R Hun [Hpre [Hd [Hgr [Hmax [Hlfb Hnf]]]]] H. jredg Hg Hun Hmv. assert (Hf := proj2 R k).
   cbn [LazyRefine.op_spec] in H.
   destruct (sfind k (st_m t)) as [v0|] eqn:Ef.
-  - eapply (complete_insertish_gen tb _ k v false m _ _ _ _ _ _ _ _ _ _ _ m' Hpre Hd Hgr Hmax Hnf Hg Hmv R);
+  - eapply (complete_insertish_gen tb _ k v false m _ _ _ _ _ _ _ _ _ _ _ m' Hpre Hd Hgr Hmax Hlfb Hnf Hg Hmv R);
       [apply srep_sset; exact R|rewrite <- Hf; reflexivity| |exact H].
     rewrite <- Hf. split; [intro; reflexivity|reflexivity].
-  - eapply (complete_insertish_gen tb _ k v false m _ _ _ _ _ _ _ _ _ _ _ m' Hpre Hd Hgr Hmax Hnf Hg Hmv R);
+  - eapply (complete_insertish_gen tb _ k v false m _ _ _ _ _ _ _ _ _ _ _ m' Hpre Hd Hgr Hmax Hlfb Hnf Hg Hmv R);
       [apply srep_sset; exact R|rewrite <- Hf; reflexivity| |exact H].
     rewrite <- Hf. split; [intro; reflexivity|reflexivity].
 Qed.
@@ -1000,18 +1043,18 @@ Lemma complete_OUpsert tb s a t m k f two v r m' :
   op_spec tb m (OUpsert k f two v) (norm_out r) m' ->
   exists s', judge s a (OUpsert k f two v) r pre post = (s', []) /\ post_ok s' a t m'.
 Proof.
-  intros pre post Hg Hmv R Hun [Hpre [Hd [Hgr [Hmax Hnf]]]] H. jredg Hg Hun Hmv. assert (Hf := proj2 R k).
+  intros pre post Hg Hmv R Hun [Hpre [Hd [Hgr [Hmax [Hlfb Hnf]]]]] H. jredg Hg Hun Hmv. assert (Hf := proj2 R k).
   cbn [LazyRefine.op_spec] in H.
   destruct (sfind k (st_m t)) as [v0|] eqn:Ef; [|destruct two].
-  - eapply (complete_insertish_gen tb _ k v true m _ _ _ _ _ _ _ _ _ _ _ m' Hpre Hd Hgr Hmax Hnf Hg Hmv R);
+  - eapply (complete_insertish_gen tb _ k v true m _ _ _ _ _ _ _ _ _ _ _ m' Hpre Hd Hgr Hmax Hlfb Hnf Hg Hmv R);
       [apply srep_sset; exact R|rewrite <- Hf; reflexivity| |exact H].
     rewrite <- Hf. unfold final_of, log_of, invoke. rewrite andb_false_r.
     destruct (fapply f v0 false) as [v' er]. cbn [fst andb]. split; [intro; reflexivity|reflexivity].
-  - eapply (complete_insertish_gen tb _ k v true m _ _ _ _ _ _ _ _ _ _ _ m' Hpre Hd Hgr Hmax Hnf Hg Hmv R);
+  - eapply (complete_insertish_gen tb _ k v true m _ _ _ _ _ _ _ _ _ _ _ m' Hpre Hd Hgr Hmax Hlfb Hnf Hg Hmv R);
       [apply srep_sset; exact R|rewrite <- Hf; reflexivity| |exact H].
     rewrite <- Hf. unfold final_of, log_of, invoke. cbn [negb andb].
     destruct (fapply f v true) as [v' er]. cbn [fst]. split; [intro; reflexivity|reflexivity].
-  - eapply (complete_insertish_gen tb _ k v true m _ _ _ _ _ _ _ _ _ _ _ m' Hpre Hd Hgr Hmax Hnf Hg Hmv R);
+  - eapply (complete_insertish_gen tb _ k v true m _ _ _ _ _ _ _ _ _ _ _ m' Hpre Hd Hgr Hmax Hlfb Hnf Hg Hmv R);
       [apply srep_sset; exact R|rewrite <- Hf; reflexivity| |exact H].
     rewrite <- Hf. unfold final_of, log_of, invoke. cbn [negb andb].
     split; [intro; reflexivity|reflexivity].
@@ -1023,23 +1066,23 @@ Lemma complete_OUprase tb s a t m k f two v r m' :
   op_spec tb m (OUprase k f two v) (norm_out r) m' ->
   exists s', judge s a (OUprase k f two v) r pre post = (s', []) /\ post_ok s' a t m'.
 Proof.
-  intros pre post Hg Hmv R Hun [Hpre [Hd [Hgr [Hmax Hnf]]]] H. jredg Hg Hun Hmv. assert (Hf := proj2 R k).
+  intros pre post Hg Hmv R Hun [Hpre [Hd [Hgr [Hmax [Hlfb Hnf]]]]] H. jredg Hg Hun Hmv. assert (Hf := proj2 R k).
   cbn [LazyRefine.op_spec] in H.
   destruct (sfind k (st_m t)) as [v0|] eqn:Ef; [|destruct two].
   - destruct (fapply f v0 false) as [v' er] eqn:Ea.
     eapply (complete_insertish_gen tb _ k v true m _ _ _ _ _ _ _ _ _ _
-              (mset m k (if er then None else Some v')) m' Hpre Hd Hgr Hmax Hnf Hg Hmv R); [|rewrite <- Hf; reflexivity| |exact H].
+              (mset m k (if er then None else Some v')) m' Hpre Hd Hgr Hmax Hlfb Hnf Hg Hmv R); [|rewrite <- Hf; reflexivity| |exact H].
     + destruct er; [apply srep_sremove|apply srep_sset]; exact R.
     + rewrite <- Hf. unfold final_of, log_of, invoke. rewrite andb_false_r, Ea. cbn [andb].
       destruct er; (split; [intro; reflexivity|reflexivity]).
   - destruct (fapply f v true) as [v' er] eqn:Ea.
     eapply (complete_insertish_gen tb _ k v true m _ _ _ _ _ _ _ _ _ _
-              (mset m k (if er then None else Some v')) m' Hpre Hd Hgr Hmax Hnf Hg Hmv R); [|rewrite <- Hf; reflexivity| |exact H].
+              (mset m k (if er then None else Some v')) m' Hpre Hd Hgr Hmax Hlfb Hnf Hg Hmv R); [|rewrite <- Hf; reflexivity| |exact H].
     + destruct er; [|apply srep_sset; exact R].
       apply (srep_meq _ m); [exact R|]. apply meq_mset_self. symmetry. exact Hf.
     + rewrite <- Hf. unfold final_of, log_of, invoke. cbn [negb andb]. rewrite Ea. cbn [andb].
       destruct er; (split; [intro; reflexivity|reflexivity]).
-  - eapply (complete_insertish_gen tb _ k v true m _ _ _ _ _ _ _ _ _ _ _ m' Hpre Hd Hgr Hmax Hnf Hg Hmv R);
+  - eapply (complete_insertish_gen tb _ k v true m _ _ _ _ _ _ _ _ _ _ _ m' Hpre Hd Hgr Hmax Hlfb Hnf Hg Hmv R);
       [apply srep_sset; exact R|rewrite <- Hf; reflexivity| |exact H].
     rewrite <- Hf. unfold final_of, log_of, invoke. cbn [negb andb].
     split; [intro; reflexivity|reflexivity].
@@ -1276,14 +1319,14 @@ Qed.
 
 (* ---- insert family: the model's outputs are accepted provided (i) the step did not stop on the
    model's fuel bound, (ii) the minimum load factor has a non-zero denominator and (iii) the
-   acceptor's doubling check [grew_below_minimum] does not fire on the model's own statistics.
+   acceptor's doubling check [grew_below_minimum] does not fire on the model's own statistics and
+   (iv) a load-factor exception of the model leaves the load factor strictly below the minimum
+   in the acceptor's reading ([lf_below]; the model's [Refine.exn_ok] has [lf_lt_mlf c t'], which
+   differs by [tsize t' = tsize t] and the 64-bit wrap of the capacity).
    (i) is NoFuel.v's subject and (iii) a property of the model's automatic doubling (every doubling
-   happens at load factor >= minimum); neither is derivable from [op_spec], both are left as
-   hypotheses here.  The remaining exception side condition of the acceptor (a maximum-hashpower
+   happens at load factor >= minimum); none of (i), (iii), (iv) is derivable from [op_spec], they
+   are left as hypotheses here.  The remaining exception side condition of the acceptor (a maximum-hashpower
    exception leaves the table AT the maximum) IS discharged, from [Refine.exn_ok]. *)
-Definition ins_family (o : op) : bool :=
-  match o with OInsert _ _ | OIoa _ _ | OUpsert _ _ _ _ | OUprase _ _ _ _ => true | _ => false end.
-
 Definition ures_out (full : bool) (x : exn + (bool * list rv * (N * N))) : out :=
   match x with
   | inl e => exn_out e
@@ -1365,19 +1408,20 @@ Theorem model_accepted_insert w a sl o w' r m s ts :
     w' = put_t w a sl t' /\ lgood c hash t' /\ lim_same (tb sl) t' /\ rep c t' m' /\
     forall x y,
       grew_below_minimum spb_ (obs_of (tb sl) x) (obs_of t' y) = false ->
+      (r = [RExn ELoadFactorTooLow] -> lf_below spb_ (obs_of (tb sl) x) (obs_of t' y) = true) ->
       exists s', judge s a o r (obs_of (tb sl) x) (obs_of t' y) = (s', []) /\ post_ok s' a ts m'.
 Proof.
   intros Hspb Hnt Hact Hop G Rm E Hg Hmv R Hd Hnf.
   destruct (ins_step_refines w a sl o w' r m Hnt Hact Hop G Rm E)
     as [He|[t' [m' [Hw [G' [L [R' [Hs Hx]]]]]]]]; [left; exact He|right].
   exists t', m'. split; [exact Hw|]. split; [exact G'|]. split; [exact L|]. split; [exact R'|].
-  intros x y Hgr.
+  intros x y Hgr Hlfb.
   assert (Hop' : normal_op o = true) by (destruct o; try discriminate Hop; reflexivity).
   assert (Hn : norm_out r = r) by exact (op_spec_norm _ _ _ _ _ Hop' Hs).
   assert (Hobs : obs_consistent spb_ (tb sl) o r (obs_of (tb sl) x) (obs_of t' y)).
   { destruct o; try discriminate Hop; cbn [obs_consistent];
       (split; [apply obs_pre_obs_of|]); (split; [exact Hd|]); (split; [exact Hgr|]);
-      (split; [|exact Hnf]); rewrite Hn; exact Hx. }
+      (split; [rewrite Hn; exact Hx|]); (split; [rewrite Hn; exact Hlfb|exact Hnf]). }
   rewrite <- Hn in Hs.
   exact (judge_complete c fapply spb_ (tb sl) s a ts m o r m' _ _ Hop' Hspb Hg Hmv R Hs Hobs).
 Qed.
@@ -1534,6 +1578,18 @@ Proof.
   split; intros [_ [[b [H Hiff]]|[e [H _]]]]; try discriminate H.
   injection H as <-. rewrite X, Hb in Hiff. destruct Hiff as [_ Hiff]. discriminate (Hiff eq_refl).
 Qed.
+
+(* load_factor_too_low needs the load factor STRICTLY below the minimum: 8 elements in 16 slots
+   with minimum 1/2 is not below (blamed), 7 elements is (accepted) *)
+Definition ob_lf (size : N) : obs :=
+  {| o_hp := 2; o_size := size; o_cap := 16; o_mlfn := 1; o_mlfd := 2; o_mhp := NO_MAXIMUM_HASHPOWER;
+     o_act := false; o_dead := false |}.
+
+Example equal_load_factor_exception_now_blamed :
+  o_size (ob_lf 8) * o_mlfd (ob_lf 8) = o_mlfn (ob_lf 8) * o_cap (ob_lf 8) /\
+  snd (judge0 s1 0 (OInsert 2 5%Z) [RExn ELoadFactorTooLow] (ob_lf 8) (ob_lf 8)) = [C10_limit] /\
+  snd (judge0 s1 0 (OInsert 2 5%Z) [RExn ELoadFactorTooLow] (ob_lf 7) (ob_lf 7)) = [].
+Proof. repeat split; vm_compute; reflexivity. Qed.
 
 (* ---- by design, not findings: (a) an output "exc:<unknown>" is passed unjudged (hypothesis
    [is_exn r EUnmodelled = false] of soundness); (b) RNat n and RInt n are identified (the harness
